@@ -30,7 +30,11 @@ with a statement is handed to the specification as events:
 
 String-literal and identifier quoting per dialect follow spec/StrLit.tla:
   '...' everywhere; "..." is a string in bigquery/databricks and a quoted
-  identifier elsewhere; E'...' in psql/duckdb; `...` is a quoted identifier.
+  identifier elsewhere; E'...' in psql/duckdb; `...` is a quoted identifier;
+  $$...$$ (psql/duckdb) is a bracket of kind $$ around the tokens of its body.
+  Where a literal ends is decided with the dialect's own rules (_SQ: is a
+  doubled quote an escape, is backslash an escape) - the same table as the
+  profiles of StrLit!FormsOf, which then judges the token.
 """
 import re
 
@@ -46,6 +50,8 @@ _DQ_STRING = ('bigquery', 'databricks')
 _E_STRING = ('psql', 'duckdb')
 _BRACE_SYNTAX = ('duckdb',)           # {a: 1} struct literals
 _HASH_COMMENT = ('bigquery',)
+_DOLLAR_QUOTE = ('psql', 'duckdb')
+_DOLLAR_TAG = re.compile(r'\$([A-Za-z_][A-Za-z0-9_]*)?\$')
 
 KEYWORDS = set('''SELECT FROM WHERE GROUP HAVING ORDER LIMIT OFFSET WINDOW
 QUALIFY UNION EXCEPT INTERSECT ALL DISTINCT JOIN ON USING INNER LEFT RIGHT FULL
@@ -134,6 +140,21 @@ def Tokenize(text, dialect):
       else:
         toks.append(('id', w, ''))
       i = m.end()
+    elif c == '$' and dialect in _DOLLAR_QUOTE and _DOLLAR_TAG.match(text, i):
+      # $$ ... $$ / $tag$ ... $tag$: a string for the SQL parser whose content
+      # is code (DO blocks of the PostgreSQL preamble).  Sent as a bracket of
+      # kind $$ around the tokens of the body (its `;` do not end the
+      # statement); unterminated -> unbalanced bracket.
+      tag = _DOLLAR_TAG.match(text, i).group(0)
+      j = text.find(tag, i + len(tag))
+      toks.append(('open', '$$', ''))
+      if j < 0:
+        i = n
+      else:
+        toks.extend(t for t in Tokenize(text[i + len(tag):j], dialect)
+                    if t[:2] != ('p', ';'))
+        toks.append(('close', '$$', ''))
+        i = j + len(tag)
     elif c == '{':
       m = _FIELD.match(text, i)
       if m:
@@ -203,6 +224,10 @@ def Events(text, dialect):
     i += 1
     if kind in ('open', 'close', 'ph'):
       ev.append([kind, v])
+      if v == '$$':                       # the body of a dollar-quoted block
+        depth = depth + 1 if kind == 'open' else max(0, depth - 1)
+        while ctx and ctx[-1][0] > depth:
+          ctx.pop()
     elif kind == 'str':
       strs.append([len(ev) + 1, [ord(c) for c in v]])
       ev.append(['str', ''])
